@@ -158,7 +158,7 @@ func serverLevel(r *core.Run) {
 	defer srv.Close()
 
 	const workers = 6
-	ncases := r.N(360, 6000)
+	ncases := r.N(360, 4000)
 	var completed int64
 	r.Parallel("server", workers, func(w int) {
 		rec := g3lib.NewRec(r)
